@@ -123,4 +123,19 @@ PROPS = {
         assumptions=["reflect.Select is modelled as an arbitrary choice among the ready cases (the harness makes exactly one case ready at a time)",
                      "subscriber ids are pairwise distinct per key (the registry is a map keyed by the channel pointer)"],
     ),
+    "C16": dict(
+        lean_targets=["BB.Props.C16"],
+        theorems=["BB.Props.C16.chainInv_step", "BB.Props.C16.chain_at_most_once", "BB.Props.C16.chain_exactly_once",
+                  "BB.Props.C16.combineInv_step", "BB.Props.C16.combine_iff", "BB.Props.C16.conflInv_step", "BB.Props.C16.conflated_iff"],
+        corr=[dict(family="ctx", quick=150, thorough=6000, mismatch_is_violation=True,
+                   nontrivial=has("simultaneous", "both_pre", "primary_pre", "other_pre", "nil_other", "nil_primary", "all_inputs_cancelled",
+                                  "cancelfn", "some_pre", "all_pre"),
+                   rule="ctx: ChainAfterFunc / CombineContext / ConflatedContext built over 0-4 inputs (live, already cancelled, nil), then cancelled in "
+                        "every generated order incl. simultaneously (goroutines behind a barrier); Err() of the result / the call counter of the chained "
+                        "function read after quiescence (stable over several reads) and compared with the Lean transition systems run to quiescence; the "
+                        "values carried and the number of goroutines left at the end are checked too; non-trivial = simultaneous cancellation, inputs "
+                        "already cancelled or nil at construction, all inputs cancelled, explicit cancel function")],
+        assumptions=["context.WithCancel/AfterFunc/WithoutCancel semantics are modelled: cancellation fires each armed registration once and schedules its "
+                     "callback as a new goroutine; stop() atomically disarms", "observation is after quiescence (scheduler fairness for the callback goroutines)"],
+    ),
 }
